@@ -69,10 +69,13 @@ def gen_cases(tier, seed):
         yield {"kind": "shipped", "tier": tier, "part": part}
     for n, span, f0 in LONG[tier]:
         yield {"kind": "long", "n": n, "span": span, "f0": f0}
+    for span, count in ((15, 97), (161, 9), (90, 17)) if tier == "quick" else ((15, 97), (161, 9), (90, 17), (5, 289), (30, 49)):
+        yield {"kind": "tmid_family", "span": span, "count": count}
     for ci in range(len(CONFIGS[tier])):
         for scheme in SCHEMES:
             yield {"kind": "gen", "cfg": list(CONFIGS[tier][ci]), "scheme": scheme}
     yield {"kind": "mixed"}
+    yield {"kind": "layout"}
 
 
 def mjd_time(m):
@@ -541,6 +544,50 @@ def long_case(case, res):
     res.sample({"long": case}, 1)
 
 
+def tmid_family_case(case, res):
+    """One-entry files on every TMID of a day's grid (and a few generic ones): time_at must invert every in-span phase.
+    (An interval end whose MJD fraction is near 0.5 does not survive `end + 0 s` bit for bit in UTC.)"""
+    span = case["span"]
+    tmids = [F(58245) + F(j * span, 1440) for j in range(0, 1440 // span + 1)][: case["count"]]
+    tmids += [F("58244.51532556104"), F("58245.50000000000"), F("58246.49999999999"), F("58245.12345678901")]
+    bad = 0
+    for tm in tmids:
+        e = polyco.make_entries(1, "touch", span, "641.928232294317", "146750669817.214345", 3, "e", tmid0=f"{float(tm):.11f}")[0]
+        p = pb.PhasePredictor.from_polyco(io.StringIO(e.text()))
+        res.transitions += 1
+        res.traces += 1
+        for fr in (F(1, 1000), F(1, 4), F(1, 2), F(999, 1000)):
+            m = e.start + fr * (e.stop - e.start)
+            t = mjd_time(m)
+            res.state(("tmid family", span, str(tm), str(fr)))
+            sub = {"tmid": f"{float(tm):.11f}", "span": span, "fraction": float(fr)}
+            try:
+                ph = p(t)
+                tb = p.time_at(ph)
+            except Exception as ex:
+                bad += 1
+                if bad <= 3:
+                    res.violation("tmid family|time_at raised", f"one entry, TMID {float(tm):.11f}, span {span} min: time_at(p(t)) at "
+                                  f"{float(fr):.3f} of the span: {type(ex).__name__}: {ex}", case, sub)
+                continue
+            res.transitions += 2
+            dsec = abs(exact_mjd(tb) - exact_mjd(t)) * 86400
+            if dsec > F(1, 10 ** 7) + F(1, 10 ** 6) / e.f0:
+                res.violation("tmid family|time_at value", f"TMID {float(tm):.11f}: off by {float(dsec):.3g} s", case, sub)
+            check_inversion(res, case, p, ph, tb, e.f0, "tmid family", sub)
+        # the ends themselves
+        for nm, tt_ in (("start", p.intervals[0][0]), ("end", p.intervals[0][1])):
+            try:
+                p.time_at(p(tt_))
+            except Exception as ex:
+                bad += 1
+                if bad <= 3:
+                    res.violation("tmid family|time_at raised", f"TMID {float(tm):.11f}, span {span}: time_at(p({nm})): {type(ex).__name__}: {ex}",
+                                  case, {"tmid": f"{float(tm):.11f}", "where": nm})
+    res.hits["one-entry files on a day's grid of TMIDs"] += 1
+    res.sample({"tmid family": case}, 1)
+
+
 def dense_time_at(res, case, p, entries, tag, count):
     """time_at(p(t)) for `count` times spread over the last third of the last validity interval (every one is checked)."""
     a, b = p.intervals[-1]
@@ -592,6 +639,36 @@ def empty_subsets(res, case, p, t_in, ph_in):
                 res.violation(f"empty subset|{nm} wrong exception", f"{how}: {nm}: {type(ex).__name__}: {ex}", case, dict(sub, call=nm))
 
 
+def layout_case(case, res):
+    """The same entries with the line furniture text files come with: a trailing blank line, blank lines between entries, CRLF line
+    ends, no final newline, trailing spaces - the predictor must be the one read from the plain text."""
+    ents = polyco.make_entries(3, "touch", 90, "641.928232294317", "146750669817.214345", 5, "e")
+    plain = "".join(e.text() for e in ents)
+    ref = pb.PhasePredictor.from_polyco(io.StringIO(plain))
+    t = mjd_time(ents[1].tmid + F(600, 86400))
+    want = phase_exact_of(ref(t))[0]
+    variants = {"trailing blank line": plain + "\n", "two trailing blank lines": plain + "\n\n",
+                "blank line between entries": "\n".join(e.text() for e in ents), "CRLF line ends": plain.replace("\n", "\r\n"),
+                "no final newline": plain.rstrip("\n"), "trailing spaces": plain.replace("\n", "   \n"),
+                "leading blank line": "\n" + plain, "blank line of spaces at the end": plain + "   \n"}
+    for what, text in variants.items():
+        res.transitions += 1
+        res.traces += 1
+        res.state(("layout", what))
+        try:
+            q = pb.PhasePredictor.from_polyco(io.StringIO(text))
+            got = phase_exact_of(q(t))[0]
+        except Exception as ex:
+            res.violation(f"layout|{what}|raised", f"{type(ex).__name__}: {ex}", case, {"layout": what})
+            continue
+        if len(q) != len(ref) or got != want:
+            res.violation(f"layout|{what}|differs", f"{len(q)} entries, phase {float(got)!r} (plain text: {len(ref)} entries, {float(want)!r})",
+                          case, {"layout": what})
+        else:
+            res.hits["text layouts"] += 1
+    res.sample({"layouts": list(variants)}, 1)
+
+
 def mixed_case(case, res):
     a = polyco.make_entries(2, "touch", 90, "641.928232294317", "146750669817.214345", 12, "e")
     variants = {
@@ -618,7 +695,7 @@ def mixed_case(case, res):
 
 def check_case(case):
     res = report.Result()
-    {"gen": gen_case, "shipped": shipped_case, "mixed": mixed_case, "long": long_case}[case["kind"]](case, res)
+    {"gen": gen_case, "shipped": shipped_case, "mixed": mixed_case, "long": long_case, "tmid_family": tmid_family_case, "layout": layout_case}[case["kind"]](case, res)
     return res
 
 
@@ -630,7 +707,7 @@ def main(argv=None):
                        "coefficient count not a multiple of three", "D exponents", "shipped file", "mixed entries rejected", "other time scales",
                        "times within 300 ns of a junction, inside the neighbouring span only", "long contiguous file",
                        "time_at: p(time_at(ph)) compared with ph in cycles", "time_at on a dense family late in a long interval",
-                       "empty subset: everything is outside"],
+                       "empty subset: everything is outside", "one-entry files on a day's grid of TMIDs", "text layouts"],
         assumptions=["decimal strings of the text are the exact inputs; time is the exact (jd1, jd2) of the Time object; budget "
                      "1e-8 cycle + F0*86400*2^-51", "times inside a < 1 ms gap between spans and exactly on a span end are "
                      "unconstrained (grid uses ends +-1 us)", "time_at is exercised only where the prediction is continuous"],
